@@ -27,7 +27,7 @@ from click.testing import CliRunner
 
 ENGINE = 'E1+E2'
 OPTS = ['atol', 'fraction', 'hints', 'replicate', 'mic', 'charges', 'pp', 'framework_element']
-VALUES = dict(atol=[0.3, 0.01], fraction=[0.5, 0.25], hints=[(0, 2, 1), (1, None, 0), (None, 0, None)], replicate=[(2, 1, 1), (1, 2, 2)], mic=[5.0, 4.6], charges=[1], pp=[1], framework_element=['Xe'])
+VALUES = dict(atol=[0.3, 0.01], fraction=[0.5, 0.25], hints=[(0, 2, 1), (1, None, 0), (None, 0, None)], replicate=[(2, 1, 1), (1, 2, 2)], mic=[4.5, 5.0], charges=[1], pp=[1], framework_element=['Xe'])
 STRUCTS = ['orthorhombic: 2 exact + 1 perturbed + 1 noisy copy of C-N-O', 'triclinic (LAMMPS oriented): 2 copies of CH4 (tie-break draws)', 'cubic: 4 single Zr sites']
 MODES = ['find+replace', 'find only', 'neither']
 INPUTS = ['cif', 'lmpdat', 'cml+extract-uc']
@@ -53,7 +53,7 @@ def structure(si, seed):
         pos = [pp + np.array([0.4, 0.5, 0.6]), (sp[0] @ pp.T).T + np.array([8.6, 4.0, 10.7]), (sp[1] @ pp.T).T + np.array([4.0, 8.0, 5.0]), pp + np.array([3.0, 1.0, 3.0])]
         pos[2] = pos[2] + np.array([[0, 0, 0], [0, 0, 0], [0.12, 0.0, 0.0]])                   # found with atol 0.3 only
         pos[3] = pos[3] + np.array([[0, 0, 0], [0.02, 0, 0], [0.0, 0.02, 0.0]])                # lost with atol 0.01
-        els = el * 4 + ['Kr', 'Ar']; P = np.vstack(pos + [np.array([[6.0, 2.0, 8.0], [2.0, 6.0, 9.0]])])
+        els = el * 4 + ['Kr', 'Ar', 'S', 'B']; P = np.vstack(pos + [np.array([[6.0, 2.0, 8.0], [2.0, 6.0, 9.0], [7.5, 7.5, 1.5], [1.0, 8.5, 5.5]])])      # S, B: one-letter elements that prefix other UFF keys
         pname = 'CNO'
     elif si == 1:
         cell = G.TRI_P.copy(); el, pp = G.pattern('CH4')
@@ -62,7 +62,7 @@ def structure(si, seed):
         els = el * 2 + ['Kr']; pname = 'CH4'
     else:
         cell = np.diag([9.0, 9.0, 9.0])
-        P = np.array([(0.5, 0.5, 0.5), (5.0, 0.5, 8.8), (0.5, 5.0, 4.0), (5.0, 5.0, 0.2), (2.5, 2.5, 2.5)]); els = ['Zr'] * 4 + ['O']; pname = 'Zr'
+        P = np.array([(0.5, 0.5, 0.5), (5.0, 0.5, 8.8), (0.5, 5.0, 4.0), (5.0, 5.0, 0.2), (2.5, 2.5, 2.5), (7.0, 7.0, 7.0)]); els = ['Zr'] * 4 + ['O', 'I']; pname = 'Zr'
     return els, wrap(P, cell), cell, pname
 
 
